@@ -363,8 +363,10 @@ theorem lossesC_eq_losses_of_no_pending {s : State α} (c : Canon lossFn r12 s)
 * `factor = 1` is needed: with `factor = 2` the interval `(0, 1)` keeps the loss computed with the
   output scale `1` in the order `0, 1, 10` (the scale grows to `3/2 < 2 · 1`, no recomputation), but
   is computed with `3/2` in the order `10, 0, 1`.
-* validity (`ValidOps`) is needed: a forced `tell_many` that does not contain the end points of the
-  domain sets `scaleX` to the extent of the data (`2`) instead of the domain width (`10`). -/
+* before the repair `fix: Learner1D.tell_many batch path shrank the x-scale` a forced `tell_many` that did
+  not contain the end points of the domain set `scaleX` to the extent of the data (`2`) instead of the
+  domain width (`10`), and single tells and the batch disagreed; the second example records that they
+  agree now. -/
 section counterexamples
 
 def oiLoss : List (Option Rat) → List (Option (List Rat)) → Loss Rat
@@ -377,7 +379,7 @@ example :
   decide +kernel
 
 example :
-    (run oiLoss id (init (0 : Rat) 10 1 0 0) ([(2, [0]), (3, [1]), (4, [10])].map tellOp)).losses ≠
+    (run oiLoss id (init (0 : Rat) 10 1 0 0) ([(2, [0]), (3, [1]), (4, [10])].map tellOp)).losses =
     (run oiLoss id (init (0 : Rat) 10 1 0 0) [.tellMany [(2, [0]), (3, [1]), (4, [10])] true]).losses := by
   decide +kernel
 
